@@ -92,6 +92,10 @@ def cases(tier: str) -> list:
                     po.append([True, o])
             if po:
                 cs.append({"kind": "po-big", "seq": po})
+    # the same queues built directly from access groups, owners in various containers
+    for k, c in enumerate([c for c in cs if c["kind"] in ("po", "rand")][:: (3 if thorough else 7)]):
+        if runs_distinct(c["seq"]):
+            cs.append({"kind": "direct", "seq": c["seq"], "direct": k % 5})
     # the access plan the simulator builds for whole programs (`_build_acc_plan`: one queue per register)
     for k in range(4000 if thorough else 400):
         cs.append({"kind": "plan", "id": k})
@@ -124,14 +128,40 @@ def evaluate_plan(inp: dict) -> dict:
     return {"app": True, "nontrivial": len(prog) >= 2, "k": bool(ans["k"]["C19"]), "o": ans["o"]["C19"], "states": len(impl)}
 
 
-def explore(seq):
+def direct_queue(seq, kind):
+    """the queue for `seq` built DIRECTLY from access groups (as the project's own tests do), the owners of each group
+    handed over as a list, tuple, set, frozenset or dict-keys view; returns (queue, the containers used)"""
+    from reg_access import AccessGroup, AccessType, RegAccessQueue
+
+    groups = []
+    for w, o in seq:
+        if not w and groups and not groups[-1][0]:
+            groups[-1][1].append(o)
+        else:
+            groups.append([w, [o]])
+    conts = []
+    for n, (w, os_) in enumerate(groups):
+        k = (kind + n) % 5
+        conts.append(list(os_) if k == 0 else tuple(os_) if k == 1 else set(os_) if k == 2 else frozenset(os_) if k == 3
+                     else dict.fromkeys(os_).keys())
+    return RegAccessQueue([AccessGroup(AccessType.WRITE if w else AccessType.READ, c) for (w, _), c in zip(groups, conts)]), conts
+
+
+def explore(seq, direct=None):
     """state graph of the real queue for this registration sequence"""
     from reg_access import AccessType, RegAccQBuilder
 
-    b = RegAccQBuilder()
-    for w, o in seq:
-        b.append(AccessType.WRITE if w else AccessType.READ, o)
-    q0 = b.create()
+    if direct is None:
+        b = RegAccQBuilder()
+        for w, o in seq:
+            b.append(AccessType.WRITE if w else AccessType.READ, o)
+        q0 = b.create()
+    else:
+        q0, conts = direct_queue(seq, direct)
+        twin, _ = direct_queue(seq, direct)
+        # a second queue built from the SAME containers: the two queues are independent objects (seeded change C19-11)
+        from reg_access import AccessGroup, RegAccessQueue
+        shared = RegAccessQueue([AccessGroup(g.access_type, c) for g, c in zip(reversed(q0._queue), conts)])
     owners = sorted({o for _, o in seq})
 
     def snap(q):
@@ -161,7 +191,11 @@ def explore(seq):
                 can.append([w, o, r])
         deq = []
         for o in owners:
-            q2 = copy.deepcopy(q)
+            try:
+                q2 = copy.deepcopy(q)
+            except Exception:  # noqa: BLE001 - a queue that cannot even be copied (it kept a view it was handed)
+                deq.append([o, -2])
+                continue
             try:
                 q2.dequeue(o)
             except Exception:  # noqa: BLE001
@@ -178,6 +212,19 @@ def explore(seq):
         states[i] = {"q": snap(q), "can": can, "deq": deq}
         if len(states) > 20000:
             raise RuntimeError("state graph explosion")
+    if direct is not None and snap(shared) != snap(twin):
+        # exploring q0 (deep copies of it, and q0 itself is never dequeued) must not have touched its sibling
+        states[0]["deq"].append([owners[0], -2])
+    if direct is not None:
+        # ... and removals on the sibling must not reach q0
+        before = snap(q0)
+        for o in owners:
+            try:
+                shared.dequeue(o)
+            except Exception:  # noqa: BLE001
+                pass
+        if snap(q0) != before:
+            states[0]["deq"].append([owners[0], -2])
     return states
 
 
@@ -188,7 +235,7 @@ def evaluate(inp: dict) -> dict:
             inp = dict(inp, prog=gen_plan_prog(inp))
         return evaluate_plan(inp)
     try:
-        states = explore(inp["seq"])
+        states = explore(inp["seq"], inp.get("direct"))
     except core.CaseTimeout:
         return {"app": True, "nontrivial": True, "k": False, "o": "can_access/dequeue did not terminate", "states": 0}
     ans = core.driver().ask({"op": "queue", "reqs": inp["seq"], "states": states})
@@ -229,7 +276,7 @@ def shrink(prop: str, inp: dict, still_fails) -> dict:
     while changed:
         changed = False
         for i in range(len(cur["seq"]) - 1, -1, -1):
-            cand = {"kind": cur["kind"], "seq": cur["seq"][:i] + cur["seq"][i + 1:]}
+            cand = dict(cur, seq=cur["seq"][:i] + cur["seq"][i + 1:])
             if runs_distinct(cand["seq"]):
                 try:
                     if still_fails(cand):
